@@ -58,6 +58,7 @@ class _RoutingFlowControl:
         "_loop",
         "_ready",
         "_received_busy_frames",
+        "_send_lock",
         "_timer_task",
         "_wait_start_time",
         "_wait_time_ms",
@@ -70,6 +71,7 @@ class _RoutingFlowControl:
         self._ready = asyncio.Event()
         self._ready.set()
         self._received_busy_frames: int = 0
+        self._send_lock = asyncio.Lock()
         self._timer_task: asyncio.Task[None] | None = None
         self._wait_start_time: float | None = None
         self._wait_time_ms: int = 0
@@ -85,15 +87,17 @@ class _RoutingFlowControl:
         # limit RoutingIndication transmission rate according to
         # KNX v01.01.02 - Communication Medium KNX IP 03.02.06 - §2.1
         # simplified version - pause 20 ms after transmit a RoutingIndication
-        elapsed = self._loop.time() - self._last_sent_routing_indication_time
-        if elapsed < ROUTING_INDICATION_WAIT_TIME:
-            await asyncio.sleep(ROUTING_INDICATION_WAIT_TIME - elapsed)
+        # one sender at a time - concurrent senders would all wake up in the same instant
+        async with self._send_lock:
+            elapsed = self._loop.time() - self._last_sent_routing_indication_time
+            if elapsed < ROUTING_INDICATION_WAIT_TIME:
+                await asyncio.sleep(ROUTING_INDICATION_WAIT_TIME - elapsed)
 
-        # a RoutingBusy may arrive after _ready was set but before this task runs again
-        while not self._ready.is_set():
-            await self._ready.wait()
-        yield
-        self._last_sent_routing_indication_time = self._loop.time()
+            # a RoutingBusy may arrive after _ready was set but before this task runs again
+            while not self._ready.is_set():
+                await self._ready.wait()
+            yield
+            self._last_sent_routing_indication_time = self._loop.time()
 
     def handle_routing_busy(self, routing_busy: RoutingBusy) -> None:
         """Handle incoming RoutingBusy."""
